@@ -106,6 +106,9 @@ fn valid_by_construction(thorough: bool) -> std::collections::HashSet<u64> {
             set.insert(fnv64(&print_program(&prog, false)));
         }
     }
+    for (src, _) in operand_sweep() {
+        set.insert(fnv64(&src));
+    }
     set
 }
 
@@ -130,7 +133,61 @@ fn corpus_sources(ctx: &Ctx, thorough: bool) -> Vec<(&'static str, String)> {
     for c in c18::cases_for_c04(thorough) {
         v.push(("c18_programs", print_program(&c.prog, false)));
     }
+    for (src, _) in operand_sweep() {
+        v.push(("operand_sweep_at_function_end", src));
+    }
     v
+}
+
+
+/// Operand values at the end of a function.  The last instruction of a function body (before the implicit
+/// `return nil`) carries a one-byte operand; the operand takes every value its form allows, so that it
+/// coincides with every opcode number once (a function whose last byte *looks like* an instruction must
+/// still end in its implicit return).  Each program is explored structurally (no fall-off the end) and run.
+pub fn operand_sweep() -> Vec<(String, Vec<String>)> {
+    let mut out: Vec<(String, Vec<String>)> = Vec::new();
+    let nil_done = || vec!["nil".to_string(), "done".to_string()];
+    for k in 0usize..=255 {
+        let nums: Vec<String> = (0..k).map(|i| format!("{}", i)).collect();
+        let list = nums.join(", ");
+        // a local in slot k read by the last statement (slot 0 is the function itself)
+        if (1..=254).contains(&k) {
+            let decl: String = (1..=k).map(|i| format!("var l{} = {};", i, i)).collect();
+            out.push((format!("fn f() {{ {} var x = l{}; }}\nprint(f());\nprint(\"done\");\n", decl, k), nil_done()));
+            // the same at the end of an else branch that ends the function, and of a lambda's block body
+            if k <= 253 {
+                out.push((format!("fn f(c) {{ {} if c {{ return 1; }} else {{ var x = l{}; }} }}\nprint(f(false));\nprint(\"done\");\n", decl, k), nil_done()));
+            }
+            // captured by the local function that is the last statement: the capture descriptor names slot k
+            out.push((format!("fn f() {{ {} fn inner() {{ return l{}; }} }}\nprint(f());\nprint(\"done\");\n", decl, k), nil_done()));
+            // constructor with k parameters and an empty body
+            let params: Vec<String> = (1..=k).map(|i| format!("p{}", i)).collect();
+            let args: Vec<String> = (1..=k).map(|i| format!("{}", i)).collect();
+            out.push((format!("class K {{\n  #[constructor]\n  fn new(self, {}) {{}}\n}}\nprint(type(K.new({})));\nprint(\"done\");\n", params.join(", "), args.join(", ")), vec!["<class K>".to_string(), "done".to_string()]));
+        }
+        if k <= 255 {
+            // a call with k arguments, a method call with k arguments
+            let params: Vec<String> = (0..k).map(|i| format!("p{}", i)).collect();
+            out.push((format!("fn g({}) {{ return {}; }}\nfn f() {{ var x = g({}); }}\nprint(f());\nprint(\"done\");\n", params.join(", "), k, list), nil_done()));
+            out.push((format!("#[constructor(new)]\nclass O {{ fn m(self{}{}) {{ return {}; }} }}\nfn f() {{ var o = O.new(); var x = o.m({}); }}\nprint(f());\nprint(\"done\");\n", if k > 0 { ", " } else { "" }, params.join(", "), k, list), nil_done()));
+            // literals with k elements / entries / parts
+            out.push((format!("fn f() {{ var x = [{}]; }}\nprint(f());\nprint(\"done\");\n", list), nil_done()));
+            out.push((format!("fn f() {{ var x = ({}{}); }}\nprint(f());\nprint(\"done\");\n", list, if k == 1 { "," } else { "" }), nil_done()));
+            let pairs: Vec<String> = (0..k).map(|i| format!("{}: {}", i, i)).collect();
+            out.push((format!("fn f() {{ var x = {{{}}}; }}\nprint(f());\nprint(\"done\");\n", pairs.join(", ")), nil_done()));
+            if k >= 1 {
+                let parts: String = (0..k).map(|i| format!("${{{}}}", i % 10)).collect();
+                out.push((format!("fn f() {{ var x = \"{}\"; }}\nprint(f());\nprint(\"done\");\n", parts), nil_done()));
+            }
+            // captured variable number k of the enclosing function read by the last statement
+            let decl: String = (0..=k).map(|i| format!("var a{} = {};", i, i)).collect();
+            let touch: String = (0..k).map(|i| format!("a{};", i)).collect();
+            if k <= 250 {
+                out.push((format!("fn outer() {{ {} fn inner() {{ {} var x = a{}; }} return inner(); }}\nprint(outer());\nprint(\"done\");\n", decl, touch, k), nil_done()));
+            }
+        }
+    }
+    out
 }
 
 // ---- O3: limit family ------------------------------------------------------------------------------
@@ -201,6 +258,16 @@ fn operand_of(funcs: &[FunctionDump], ops: &[(String, u8)], opcode: &str, occurr
     None
 }
 
+/// the sources of the limit family with `true` for those that have to be rejected (for C03: compiling any
+/// of them terminates without a panic)
+pub fn limit_sources(ctx: &Ctx) -> Vec<(String, bool)> {
+    let (_, ops_pairs) = opcode_table(ctx);
+    let mut scratch = Report::new();
+    let mut v: Vec<(String, bool)> = limit_family(ctx, &ops_pairs, &mut scratch).into_iter().map(|e| (e.request.snippets[0].clone(), e.end[0] != "ok")).collect();
+    v.extend(operand_sweep().into_iter().map(|(s, _)| (s, false)));
+    v
+}
+
 fn limit_family(ctx: &Ctx, ops_pairs: &[(String, u8)], report: &mut Report) -> Vec<Expect> {
     let mut out = Vec::new();
     let mut runner = Runner::new(ctx.runner_checked.clone());
@@ -230,7 +297,7 @@ fn limit_family(ctx: &Ctx, ops_pairs: &[(String, u8)], report: &mut Report) -> V
         }
         let base = a - 100;
         measured.push(json!({"shape": shape.name, "operand_at_zero_filler": base}));
-        for target in [65534usize, 65535, 65536, 65537] {
+        for target in [65534usize, 65535, 65536, 65537, 70000, 131071, 131072, 131073] {
             let n = target - base;
             let src = (shape.make)(n);
             // distances up to 65535 fit the 16-bit operand; larger ones must be rejected
@@ -493,7 +560,17 @@ pub fn run(ctx: &Ctx) -> Report {
     }
 
     // ---- O3 ------------------------------------------------------------------------------------------
-    let limits = limit_family(ctx, &ops_pairs, &mut report);
+    let mut limits = limit_family(ctx, &ops_pairs, &mut report);
+    for (src, exp) in operand_sweep() {
+        limits.push(Expect {
+            family: "operand_value_sweep_at_function_end",
+            request: Request { op: "run".into(), snippets: vec![src], fuel: Some(2_000_000), ..Default::default() },
+            out: vec![exp],
+            end: vec!["ok".into()],
+            describe: json!({}),
+            nontrivial: true,
+        });
+    }
     let n_limits = limits.len();
     let lstats = expect::run_expect(ctx, &ctx.runner_checked, limits.into_iter(), &|_e, _r| None, &|_e, _p| None);
 
@@ -503,7 +580,7 @@ pub fn run(ctx: &Ctx) -> Report {
     report.cov("evaluations", json!(acc.functions + n_limits));
     report.cov("distinct_nontrivial", json!(acc.functions));
     report.cov("exhaustive", json!(true));
-    report.cov("rule", json!("O1: for every function compiled from the corpus (repository scripts, core.yl, and every program of the C05/C06/C07/C08/C18 generators at their quick bounds) the abstract state space (pc, operand-stack height) is explored exhaustively by worklist, with exceptional edges into catch/finally targets and the return edges of finally blocks; in every state: operands inside the code, jump targets on instruction boundaries, constants in range and of the right kind, local slot < height, capture indices in range, no underflow, no fall-off; each pc has exactly one height. Conformance: with the instruction-trace hook every concretely executed (function, pc, height) must be in the abstract set. O3: for each jump kind a body is sized (2- and 3-byte filler statements, operand measured from the emitted code) so that the distance is 65534..65537; counts of locals (plain, and with the limit reached by a for loop, a catch variable, a local function, a local class, a block local, a derived local class), captures, parameters/arguments, vec/tuple/map elements, interpolation parts at 254..257 (and 253..258 in seven arrangements of expression and literal parts) and constants at the chunk limit: each program is rejected with a compile error or prints exactly the expected lines."));
+    report.cov("rule", json!("O1: for every function compiled from the corpus (repository scripts, core.yl, and every program of the C05/C06/C07/C08/C18 generators at their quick bounds) the abstract state space (pc, operand-stack height) is explored exhaustively by worklist, with exceptional edges into catch/finally targets and the return edges of finally blocks; in every state: operands inside the code, jump targets on instruction boundaries, constants in range and of the right kind, local slot < height, capture indices in range, no underflow, no fall-off; each pc has exactly one height. Conformance: with the instruction-trace hook every concretely executed (function, pc, height) must be in the abstract set. O3: for each jump kind a body is sized (2- and 3-byte filler statements, operand measured from the emitted code) so that the distance is 65534..65537, 70000 and 131071..131073 (twice the operand's range); counts of locals (plain, and with the limit reached by a for loop, a catch variable, a local function, a local class, a block local, a derived local class), captures, parameters/arguments, vec/tuple/map elements, interpolation parts at 254..257 (and 253..258 in seven arrangements of expression and literal parts) and constants at the chunk limit: each program is rejected with a compile error or prints exactly the expected lines. Operand sweep: the last instruction of a function body carries a one-byte operand (local slot, capture slot, argument count of a call / method call, element count of a vec / tuple / map literal, interpolation parts, captured-variable index, parameter count of an empty constructor) that takes every value 0..255 its form allows - so it coincides with every opcode number - at the end of a function, of an else branch that ends the function, and in a trailing local function's capture list: each program is explored structurally (no fall-off the end) and run."));
     report.cov("bounds", json!({"corpus_programs": n_sources, "limit_programs": n_limits}));
     report.cov("corpus_by_family", json!(fam_count));
     report.cov("functions_analysed", json!(acc.functions));
